@@ -281,7 +281,10 @@ def no_view_stored(F, rep, ctx, rule="C08.no-view-stored"):
     }
     SAFE = ("bytecode::variables::primitive::Primitive::move_out_of_heap_primitive", "bytecode::stack::PrimitiveFlagsPair::primitive",
             "core::ops::arith::Add::add", "core::ops::arith::Sub::sub", "core::ops::arith::Mul::mul", "core::ops::arith::Div::div",
-            "core::ops::arith::Rem::rem", "bytecode::variables::primitive::HeapPrimitive::to_owned_primitive")
+            "core::ops::arith::Rem::rem", "bytecode::variables::primitive::HeapPrimitive::to_owned_primitive",
+            # the other operator traits of Primitive compute their result like the five above (a compound form of them, `<<=`, stores it)
+            "core::ops::bit::Shl::shl", "core::ops::bit::Shr::shr", "core::ops::bit::BitAnd::bitand", "core::ops::bit::BitOr::bitor",
+            "core::ops::bit::BitXor::bitxor", "core::ops::arith::Neg::neg", "core::ops::bit::Not::not")
     T = rules.TRANSPARENT | {rules.TRY_BRANCH, "core::option::Option::unwrap", "core::option::Option::expect", "anyhow::Context::context",
                             "anyhow::Context::with_context"}
     emitted = {name for f, name, span, c in opcodes.instruction_literals(ctx.facts("default", ["bytecode", "compiler"]))}
